@@ -78,8 +78,8 @@ class _Data(object):
 class WriterMarkers(Obligation):
     mode = 'int'
     validate_paths = 3
-    name = 'writer-markers[uamiv]'
-    bounds = {'cells per layer': 'unbounded', 'nspec': 'unbounded'}
+    name = 'writer-header-markers[uamiv]'
+    bounds = {'nspec': 'unbounded'}
     stubs = ('np.array(...).astype (value box)',)
 
     def sym(self, ctx, h):
@@ -88,7 +88,7 @@ class WriterMarkers(Obligation):
         self._space = None
         found = loader.find_assign_values(
             'PseudoNetCDF.camxfiles.uamiv.Write', 'ncf2uamiv',
-            ['buf', ('spc_hdr', 'SPAD1'), ('spc_hdr', 'EPAD1'),
+            [('spc_hdr', 'SPAD1'), ('spc_hdr', 'EPAD1'),
              ('time_hdr', 'SPAD'), ('time_hdr', 'EPAD'),
              ('grid_hdr', 'SPAD'), ('grid_hdr', 'EPAD'),
              ('cell_hdr', 'SPAD'), ('cell_hdr', 'EPAD'),
@@ -112,8 +112,6 @@ class WriterMarkers(Obligation):
         def ev(key):
             v = eval(found[key][0], env)
             return v.v if isinstance(v, _Box) else v
-        lay = layouts.UamivLayout(1, 1, 1, cells, nx, ny, 2001, 0, 1, 24)
-        h.claim('data-record-marker', symx._b(ev('buf') == lay.P - 8))
         h.claim('species-record-marker', z3.And(
             symx._b(ev(('spc_hdr', 'SPAD1')) == 40 * nspec),
             symx._b(ev(('spc_hdr', 'EPAD1')) == 40 * nspec)))
@@ -131,13 +129,19 @@ class WriterMarkers(Obligation):
         h.observe('ok', True)
 
     def real(self, inputs):
+        nspec = min(int(frac_of(inputs.get('nspec', 2))), 3)
+        return _write_and_walk(inputs, 'f', nspec, 2)
+
+    any_violation_confirms = True
+
+
+def _write_and_walk(inputs, srcdt, nspec, nz):
         """write a real file with the library writer, walk it with an
         independent struct-based decoder"""
         import warnings
         nx = min(int(frac_of(inputs.get('nx', 3))), 7)
         ny = min(int(frac_of(inputs.get('ny', 2))), 5)
-        nspec = min(int(frac_of(inputs.get('nspec', 2))), 3)
-        T, nz = 2, 2
+        T = 2
         viol = {}
         d = tempfile.mkdtemp(prefix='verif_c09_')
         path = os.path.join(d, 'w.uamiv')
@@ -159,8 +163,8 @@ class WriterMarkers(Obligation):
                 rng = np.random.RandomState(3)
                 data = {}
                 for n_ in names:
-                    v = f.createVariable(n_, 'f', ('TSTEP', 'LAY', 'ROW',
-                                                   'COL'))
+                    v = f.createVariable(n_, srcdt, ('TSTEP', 'LAY', 'ROW',
+                                                     'COL'))
                     data[n_] = rng.rand(T, nz, ny, nx).astype('f')
                     v[:] = data[n_]
                 f.NAME, f.NOTE = 'AVERAGE   ', 'note'.ljust(60)
@@ -219,16 +223,210 @@ class WriterMarkers(Obligation):
         return {'obs': {'ok': True}, 'violations': viol,
                 'grid': (nspec, nz, ny, nx)}
 
+
+# --------------------------------------------------------------------------
+# the writer's data loop on a byte-counting sink
+# --------------------------------------------------------------------------
+class _Piece(object):
+    """what one .tofile() call puts into the file: a byte count (symbolic
+    allowed), and for 4-byte integers the value"""
+
+    def __init__(self, nbytes, kind, value=None, dtype=None):
+        self.nbytes, self.kind, self.value, self.dtype = \
+            nbytes, kind, value, dtype
+
+    def tofile(self, sink):
+        sink.pieces.append(self)
+
+
+class _IntBox(_Piece):
+    """np.array(expr): an integer scalar; astype(dt) fixes its width"""
+
+    def __init__(self, v, dt='<i8'):
+        _Piece.__init__(self, np.dtype(dt).itemsize, 'int', v,
+                        np.dtype(dt).str)
+
+    def astype(self, dt, *a, **k):
+        return _IntBox(self.value, dt)
+
+
+class _Slab(_Piece):
+    """one (time, layer) slab of a source variable: `cells` values of the
+    source dtype"""
+
+    def __init__(self, cells, dt):
+        dt = np.dtype(dt)
+        _Piece.__init__(self, cells * dt.itemsize, 'data', None, dt.str)
+        self.size = cells
+        self.itemsize = dt.itemsize
+        self.shape = (cells,)
+
+    def astype(self, dt, *a, **k):
+        return _Slab(self.size, dt)
+
+    def filled(self, *a):
+        return self
+
+    def __getitem__(self, k):
+        return self
+
+
+class _SrcVar(object):
+    def __init__(self, cells, dt):
+        self.cells, self.dt = cells, dt
+
+    def __getitem__(self, k):
+        return _Slab(self.cells, self.dt)
+
+
+class _Vars(object):
+    def __init__(self, var, T):
+        self.var, self.T = var, T
+
+    def __getitem__(self, k):
+        if k == 'TFLAG':
+            return np.array([[[2004010, t * 10000]] for t in range(self.T)])
+        return self.var
+
+
+class _SinkNP(object):
+    """the numpy surface the data loop uses"""
+    class ma(object):
+        @staticmethod
+        def filled(x, *a):
+            return x
+
+    class char(object):
+        @staticmethod
+        def strip(x):
+            return str(x).strip()
+
+    @staticmethod
+    def array(x, *a, **k):
+        return _IntBox(x)
+
+
+class _Sink(object):
+    def __init__(self):
+        self.pieces = []
+
+    def flush(self):
+        pass
+
+
+class WriterLoop(Obligation):
+    """the data-writing loop of ncf2uamiv executed on a byte-counting sink:
+    every data record is [marker][ione][name 40][cells float32][marker] with
+    both markers equal to the bytes between them, for a source variable of
+    the given dtype and an unbounded number of cells per layer"""
+    mode = 'int'
+    validate_paths = 2
+    stubs = ('file sink (byte counts and integer values of every tofile '
+             'call)', 'np.array / np.ma.filled / np.char.strip / '
+             'ndarray.astype value boxes')
     any_violation_confirms = True
+
+    def __init__(self, srcdt, nspec, nz):
+        self.srcdt, self.nspec, self.nz = srcdt, nspec, nz
+        self.name = 'writer-loop[src=%s,nspec=%d,nz=%d]' % (srcdt, nspec, nz)
+        self.bounds = {'cells per layer': 'unbounded', 'nspec': nspec,
+                       'nz': nz, 'T': 1, 'source dtype': srcdt}
+
+    def sym(self, ctx, h):
+        import ast
+        import hashlib
+        sp = loader.TwinSpace()
+        W = sp.twin('PseudoNetCDF.camxfiles.uamiv.Write')
+        self._space = None
+        node, path = loader.get_function_ast(
+            'PseudoNetCDF.camxfiles.uamiv.Write', 'ncf2uamiv')
+        loops = [st for st in node.body if isinstance(st, ast.For) and any(
+            isinstance(c, ast.Attribute) and c.attr == 'tofile'
+            for c in ast.walk(st))]
+        if len(loops) != 1:
+            raise loader.HarnessError(
+                'ncf2uamiv: expected one top-level loop writing records, '
+                'found %d' % len(loops))
+        mod = ast.Module(body=loops, type_ignores=[])
+        mod = loader._Rewrite().visit(mod)
+        ast.fix_missing_locations(mod)
+        code = compile(mod, path + ':<data loop>', 'exec')
+        text = ast.unparse(loops[0])
+        self._info = {'file': 'src/PseudoNetCDF/camxfiles/uamiv/Write.py',
+                      'qualname': 'ncf2uamiv', 'statements': [text],
+                      'sha256': hashlib.sha256(text.encode())
+                      .hexdigest()[:16]}
+        cells = ctx.int('cells', 1)
+        nx = ctx.int('nx', 1, 4096)
+        ny = ctx.int('ny', 1, 4096)
+        T = 1
+        sink = _Sink()
+        nc = type('F', (), {})()
+        nc.variables = _Vars(_SrcVar(cells, self.srcdt), T)
+        nc.dimensions = {'LAY': range(self.nz)}
+        names = ['SP%d' % i for i in range(self.nspec)]
+        spc_hdr = [{'DATA': [_Piece(W._spc_fmt.itemsize, 'name')
+                             for _ in names]}]
+        env = dict(W.__dict__)
+        env.update({'np': _SinkNP, 'ncffile': nc, 'outfile': sink,
+                    '__builtins__': sp.builtins, 'nz': self.nz,
+                    'NLAYS': self.nz, 'nspec': self.nspec,
+                    'NROWS': ny, 'NCOLS': nx,
+                    'spc_names': names, 'spc_hdr': spc_hdr,
+                    'time_hdr': [_Piece(W._time_hdr_fmt.itemsize, 'time')
+                                 for _ in range(T)]})
+        try:
+            exec(code, env)
+        except Exception as ex:
+            raise loader.HarnessError(
+                'the data loop of ncf2uamiv uses something the sink does '
+                'not model: %r' % (ex,))
+        lay = layouts.UamivLayout(1, 1, 1, cells, nx, ny, 2001, 0, 1, 24)
+        pcs = sink.pieces
+        nrec = self.nspec * self.nz
+        ok_shape = len(pcs) > 1 and pcs[0].kind == 'time' and \
+            (len(pcs) - 1) % nrec == 0
+        h.claim('one-time-record-then-%d-data-records' % nrec,
+                z3.BoolVal(bool(ok_shape)))
+        if not ok_shape:
+            return
+        k = (len(pcs) - 1) // nrec
+        for r in range(nrec):
+            grp = pcs[1 + r * k:1 + (r + 1) * k]
+            first, last = grp[0], grp[-1]
+            tot = 0
+            for g in grp:
+                tot = tot + g.nbytes
+            marks = first.kind == 'int' and last.kind == 'int' and \
+                first.dtype == '>i4' and last.dtype == '>i4'
+            h.claim('rec%d:markers-are-big-endian-int32' % r,
+                    z3.BoolVal(bool(marks)))
+            if not marks:
+                continue
+            h.claim('rec%d:record-size' % r, symx._b(tot == lay.P))
+            h.claim('rec%d:start-marker' % r,
+                    symx._b(first.value == tot - 8))
+            h.claim('rec%d:end-marker' % r, symx._b(last.value == tot - 8))
+            data = [g for g in grp if g.kind == 'data']
+            okd = len(data) == 1 and data[0].dtype == '>f4'
+            h.claim('rec%d:payload-big-endian-float32' % r,
+                    z3.BoolVal(bool(okd)))
+            if okd:
+                h.claim('rec%d:payload-size' % r,
+                        symx._b(data[0].nbytes == 4 * cells))
+        h.observe('ok', True)
+
+    def real(self, inputs):
+        return _write_and_walk(inputs, self.srcdt, self.nspec, self.nz)
 
 
 class FullSizeMemmap(c14.CutUamiv):
     """memmap reader at the full file length: exactly T steps"""
 
-    def __init__(self, nspec, nz, ny, nx):
-        c14.CutUamiv.__init__(self, nspec, nz, ny, nx, None)
-        self.name = 'reader-memmap-full[nspec=%d,nz=%d,ny=%d,nx=%d]' % (
-            nspec, nz, ny, nx)
+    def __init__(self, nspec, nz, ny, nx, fname='AVERAGE'):
+        c14.CutUamiv.__init__(self, nspec, nz, ny, nx, None, fname)
+        self.name = 'reader-memmap-full[nspec=%d,nz=%d,ny=%d,nx=%d,%s]' % (
+            nspec, nz, ny, nx, fname)
 
     def sym(self, ctx, h):
         nspec, nz, ny, nx, _ = self.p
@@ -236,21 +434,18 @@ class FullSizeMemmap(c14.CutUamiv):
         self._space = None
         T = ctx.int('T', 1, 10 ** 6)
         lay = self._layout(T)
-        me = type('S', (), {})()
-        g = lambda n: getattr(holder, '_uamiv__' + n)  # noqa
-        me._uamiv__emiss_hdr = c14.FakeMap(g('emiss_hdr_fmt'), 1)
-        me._uamiv__grid_hdr = c14.FakeMap(g('grid_hdr_fmt'), 1)
-        me._uamiv__cell_hdr = c14.FakeMap(g('cell_hdr_fmt'), 1)
-        me._uamiv__spc_hdr = c14.FakeMap(g('spc_fmt'), nspec)
+        me = c14.header_maps(holder, lay)
         env = dict(sp.twin('PseudoNetCDF.camxfiles.uamiv.Memmap').__dict__)
-        env.update({'self': me, 'nx': nx, 'ny': ny, 'nz': nz, 'nspec': nspec,
-                    'size': lay.length})
+        env.update({'self': me, 'size': lay.length})
         self._info = info
         try:
             out = run(env)
         except ValueError as ex:
             h.candidate('raised-on-valid-file', str(ex)[:80])
             return
+        h.claim('layers', z3.BoolVal(int(out['nz']) == nz))
+        h.claim('grid', z3.BoolVal((int(out['nx']), int(out['ny']),
+                                    int(out['nspec'])) == (nx, ny, nspec)))
         h.claim('steps', symx._b(out['ntimes'] == T))
         h.claim('header-offset', symx._b(out['offset'] == lay.H))
         h.claim('block-size', symx._b(out['data_block_size'] * 4 == lay.B))
@@ -261,7 +456,7 @@ class FullSizeMemmap(c14.CutUamiv):
         nspec, nz, ny, nx, _ = self.p
         T = min(int(frac_of(inputs.get('T', 2))), 50)
         lay = layouts.UamivLayout(nspec, nz, T, nx * ny, nx, ny, 2001, 0, 1,
-                                  24)
+                                  24, name=self.fname)
         viol = {}
         d = tempfile.mkdtemp(prefix='verif_c09_')
         path = os.path.join(d, 'r.uamiv')
@@ -275,6 +470,9 @@ class FullSizeMemmap(c14.CutUamiv):
                     nt = len(mm.dimensions['TSTEP'])
                     if nt != T:
                         viol['steps'] = '%d steps read, %d encoded' % (nt, T)
+                    if len(mm.dimensions['LAY']) != nz:
+                        viol['layers'] = '%d layers read, %d encoded' % (
+                            len(mm.dimensions['LAY']), nz)
                     for si, sn in enumerate(lay.spcnames):
                         got = np.array(mm.variables[sn.strip()])
                         if not np.array_equal(got, data[:, si]):
@@ -290,7 +488,15 @@ class FullSizeMemmap(c14.CutUamiv):
 
 def obligations(tier):
     obs = [WriterMarkers()]
-    for g in [(1, 1, 1, 1), (2, 1, 1, 2), (1, 2, 2, 1), (2, 2, 2, 3)]:
+    for dt in ('f', 'd'):
+        obs.append(WriterLoop(dt, 2, 2))
+    if tier == 'thorough':
+        for dt in ('f', 'd', 'i', 'h'):
+            obs.append(WriterLoop(dt, 1, 1))
+            obs.append(WriterLoop(dt, 3, 2))
+    for g in [(1, 1, 1, 1), (2, 1, 1, 2), (1, 2, 2, 1), (2, 2, 2, 3),
+              (1, 2, 2, 1, 'EMISSIONS'), (1, 5, 1, 5, 'EMISSIONS'),
+              (2, 1, 1, 2, 'AIRQUALITY'), (1, 2, 1, 1, 'INSTANT')]:
         obs.append(FullSizeMemmap(*g))
     for nspec, nz, T in ((1, 1, 2), (2, 1, 2), (1, 2, 3)) + (
             ((2, 2, 3),) if tier == 'thorough' else ()):
